@@ -1912,6 +1912,13 @@ fn coerce_numeric_types(left: &ArrowDataType, right: &ArrowDataType) -> ArrowDat
     use ArrowDataType::*;
 
     match (left, right) {
+        // Operands of the same narrow type are not widened at execution time
+        // (filter.rs coerce_numeric_types keeps equal types, the Arrow kernel
+        // then returns that type), so the plan must not report a wider one.
+        (Int32, Int32) => Int32,
+        (Int16, Int16) => Int16,
+        (Int8, Int8) => Int8,
+        (Float32, Float32) => Float32,
         (Float64, _) | (_, Float64) => Float64,
         (Float32, _) | (_, Float32) => Float64,
         (Decimal128(_, _), _) | (_, Decimal128(_, _)) => Decimal128(38, 10),
